@@ -700,6 +700,8 @@ func cmdGen(args []string) {
 			cfg.RootNode = true
 		case "skeleton":
 			cfg.Skeleton = true
+		case "nestedlists":
+			cfg.NestedLists = true
 		case "nomut":
 			cfg.Mutations = false
 		default:
